@@ -25,12 +25,19 @@ type Case struct {
 	// Inner-1 layers, is reported as well: decorating an error must not change
 	// what the error it wraps reports.
 	Inner int `json:"inner,omitempty"`
+	// CancelSess (paths stmt, xexec): the session context comes from a middleware and the statement
+	// cancels it (an application-level kill) before it returns its error: the error still reports
+	// what it carries, whatever it wraps and whatever state its context is in.
+	CancelSess bool `json:"cancel_sess,omitempty"`
 }
 
 var quiet = slog.New(slog.NewTextHandler(io.Discard, &slog.HandlerOptions{Level: slog.Level(100)}))
 
 func labels(c Case) (ls []string, nontrivial bool) {
 	ls = append(ls, "path="+c.Path)
+	if c.CancelSess {
+		ls = append(ls, "session-context-cancelled")
+	}
 	if c.Err == nil {
 		return append(ls, "nil-error"), true
 	}
@@ -93,7 +100,12 @@ func obtain(c Case, prebuilt error) ([]pgwire.BMsg, string) {
 	case "parse", "xparse":
 		cfg.Table.Q = map[string]script.Outcome{q: {Err: c.Err}}
 	case "stmt", "xexec":
-		cfg.Table.Q = map[string]script.Outcome{q: {Stmts: []script.Stmt{{Ops: []script.Op{{K: "ret", Err: c.Err}}}}}}
+		ops := []script.Op{{K: "ret", Err: c.Err}}
+		if c.CancelSess {
+			cfg.MWs = []script.MW{{Cancelable: true}}
+			ops = append([]script.Op{{K: "cancelsess"}}, ops...)
+		}
+		cfg.Table.Q = map[string]script.Outcome{q: {Stmts: []script.Stmt{{Ops: ops}}}}
 	}
 	env := script.Start(cfg)
 	defer env.Stop()
